@@ -77,6 +77,7 @@ def run_live(ctx, binary, data, n):
 
 
 HANGS = [0]
+ZONED = [0]
 
 
 def run_logger(ctx, binary, data, seed, chunk, pause_ms, n, **kw):
@@ -107,8 +108,24 @@ def run_logger1(ctx, binary, data, seed, chunk, pause_ms, n, paced=False, pre=b"
     cfg = os.path.join(d, "cfg.json")
     with open(cfg, "w") as f:
         # every second run has the event log switched on (its own directory): it must make no difference
-        json.dump({"log_events": n % 2 == 1, "event_log_directory": os.path.join(d, "events"), "message_log_directory": logdir}, f)
+        conf = {"log_events": n % 2 == 1, "event_log_directory": os.path.join(d, "events"), "message_log_directory": logdir}
+        k = -1
+        if not pre and not rec_broken:
+            k = ZONED[0]
+            ZONED[0] += 1
+        if k >= 0 and (k // 4) % 2 == 0:
+            conf["directory_for_old_message_logs"] = os.path.join(d, "old-records")     # a configured field the program may or may not use
+        json.dump(conf, f)
     env = dict(os.environ)
+    dates = []
+    if k >= 0 and k % 4 < 3:
+        # the program runs in a time zone whose date differs from UTC's for part of every day; "the day's record" is the one
+        # named after a date that is today somewhere (every zone occurs with and without the directory for old records)
+        z = k % 4
+        env["TZ"] = ["Pacific/Kiritimati", "Etc/GMT+12", "Etc/GMT+1"][z]
+        u = datetime.datetime.utcnow()
+        offs = [14, -12, -1]
+        dates = [(u + datetime.timedelta(hours=h)).date().isoformat() for h in [offs[z], 0] + offs]
     if pause_ms:
         env["VERIF_PAUSE_rec.write"] = str(pause_ms)
     rng = random.Random(seed)
@@ -163,7 +180,7 @@ def run_logger1(ctx, binary, data, seed, chunk, pause_ms, n, paced=False, pre=b"
     day2 = datetime.date.today().isoformat()
     out = outbuf[0] if outbuf else b""
     fbytes, has = b"", False
-    for day in (day1, day2):
+    for day in dates + [day1, day2]:
         fn = os.path.join(logdir, "rtcmlogger.%s.rtcm" % day)
         if os.path.exists(fn) and not os.path.islink(fn):      # (never read the /dev/full link: it is an endless source)
             fbytes, has = open(fn, "rb").read(), True
